@@ -69,10 +69,17 @@ PROPS = {
             "cxxflags": ["-frounding-math", "-ffp-contract=off"], "ref_sources": FPREF, "max_success": {"quick": 1000, "thorough": 10000}},
     "C11": {"id": "C11", "source": "c11.cpp", "files": FLT_VEC_FILES + SCALAR_FILES[8:], "min_configs": {"quick": 8, "thorough": 30},
             "cxxflags": ["-frounding-math", "-ffp-contract=off"], "ref_sources": FPREF, "optional_classes": ["zero_sign_differs_from_libm"]},
+    "C12": {"id": "C12", "source": "c12.cpp", "files": FLT_VEC_FILES + SCALAR_FILES[8:], "min_configs": {"quick": 8, "thorough": 30},
+            "cxxflags": ["-frounding-math", "-ffp-contract=off"], "ref_sources": FPREF},
     "C02": {"id": "C02", "source": "c02.cpp", "files": INT_VEC_FILES + FLT_VEC_FILES, "min_configs": {"quick": 8, "thorough": 30}, "digest_binding": True},
 }
 
 MANIFEST_TEXT = {
+    "C12": {
+        "technique": "property-based testing: strided/exhaustive binary32 sweeps, value-class x exponent grids with a different exponent in every lane, special-value cross products + rapidcheck, differential against glibc (frexp/ldexp/scalbn/ilogb/logb, x-trunc(x), fdim) with a binary64 second opinion for binary32 ldexp, validity predicates for fmax/fmin",
+        "level": "Generated-input search over every float vector type and the scalar overloads in every configuration: frexp/ilogb/logb/frac on every 1021st binary32 pattern (quick) or all 2^32 (thorough) and stratified binary64; ldexp/scalbn on every value class x exponents {INT_MIN, -2^20, -400..400, 2^20, INT_MAX, boundary exponents}; fmax/fmin/fdim on the special-value cross product. frexp: significand and exponent equal to libm, zeros return themselves bit-for-bit with exponent 0, inf/NaN return themselves; ldexp/scalbn bit-equal to glibc; ilogb specials FP_ILOGB0/FP_ILOGBNAN/INT_MAX; fmax/fmin: the other operand bit-for-bit when exactly one operand is a (quiet) NaN, otherwise bit-equal to an operand and correctly ordered.",
+        "note": "Trusted: glibc as reference, host CPU, compilers. Accepted as open: either zero of a +-0 pair for fmax/fmin, either sign of a zero frac/fdim result, a NaN result when the NaN operand of fmax/fmin is signalling (what IEEE maxNum and glibc do), the exponent written by frexp for inf/NaN. Known findings (ldexp/scalbn emulation outside the comfortable range in the SSE2..AVX2 arms) are listed in known_findings.txt and excluded by input class.",
+    },
     "C11": {
         "technique": "property-based testing: strided (quick) / exhaustive (thorough) sweep of all 2^32 binary32 patterns, stratified binary64 values and lattice + rapidcheck, differential against glibc under the same rounding mode; FP-environment invariant (MXCSR control bits, x87 control word) observed around every call and around a sample of 40 other AVEL operations under each rounding mode and FTZ/DAZ setting",
         "level": "Generated-input search: every 1031st binary32 pattern with a seed-dependent phase (quick) or all 2^32 (thorough) for ceil/floor/trunc/round and for nearbyint/rint under each of the four rounding modes, every float vector width and the scalar overloads; binary64: every exponent x boundary mantissas, half-integers and neighbours around 2^51..2^53. Comparison: NaN->NaN; integral/infinite inputs must come back as the same number; otherwise numerically equal to libm (a differing zero sign is counted, not flagged, because the statement says 'the same number'). Environment: control state before == after, for the rounding functions and for arithmetic, comparisons, classification, frexp/ldexp/ilogb, integer div/average/etc.",
